@@ -2,14 +2,16 @@ CONSTANTS ControlsExisting = TRUE
   RandomFresh = TRUE
   OpenReturns = TRUE
   OwnsOnlyCreated = TRUE
-  CtlSets = {{"cpu", "memory"}, {"u"}}
+  OpenKeepsLimits = TRUE
+  CtlSets = {{"cpu", "memory"}, {"u"}, {"cpuset", "memory"}}
   Names = {"x", "y"}
   RNames = {"r"}
   PidSet = {"p1", "p2"}
   MaxOps = 5
   MaxDepth = 2
   MaxHandles = 5
-  WithSet = FALSE
+  WithSet = TRUE
+  Rich = FALSE
   Emit = FALSE
 SPECIFICATION Spec
 INVARIANTS ImplRefines OneOwner Housed
